@@ -116,6 +116,19 @@ func oracleC02(op string, args []string) string {
 	if !ok {
 		return skip
 	}
+	if fam != "msg" {
+		// well-formedness clause of the property: the header view equals the body's own header octets
+		var bh []byte
+		for _, f := range fs {
+			if len(bh) >= len(hdr) {
+				break
+			}
+			bh = append(bh, f.data...)
+		}
+		if len(bh) < len(hdr) || !bytes.Equal(bh[:len(hdr)], hdr) {
+			return skip
+		}
+	}
 	want := name + " " + args[3]
 	out, err := encodeBuilt(fam, name, m, body, nil)
 	if err != nil {
@@ -423,6 +436,31 @@ func oracleC05(op string, args []string) string {
 		if bh := bodyHeader(fv.FieldByName(want).Elem(), hl); !bytes.Equal(bh, hdr) {
 			return fmt.Sprintf("FAIL header view %x differs from the body's own header octets %x", hdr, bh)
 		}
+		// the header view through its accessors (and the two free helpers on the input) says the same
+		if nas.GetEPD(b) != b[0] || nas.GetSecurityHeaderType(b) != b[1] {
+			return "FAIL GetEPD / GetSecurityHeaderType do not return the first / second octet"
+		}
+		if fam == "gmm" {
+			h := m.GmmMessage.GmmHeader
+			if h.GetExtendedProtocolDiscriminator() != b[0] || h.GetMessageType() != b[2] {
+				return "FAIL GmmHeader accessors disagree with the header octets"
+			}
+			h.SetMessageType(b[2] ^ 0x55)
+			h.SetExtendedProtocolDiscriminator(b[0] ^ 0xaa)
+			if h.Octet != [3]uint8{b[0] ^ 0xaa, b[1], b[2] ^ 0x55} || m.GmmMessage.GmmHeader.Octet != [3]uint8{b[0], b[1], b[2]} {
+				return "FAIL GmmHeader setters write other octets than discriminator / message type (or reach through a copy)"
+			}
+		} else {
+			h := m.GsmMessage.GsmHeader
+			if h.GetExtendedProtocolDiscriminator() != b[0] || h.GetMessageType() != b[3] {
+				return "FAIL GsmHeader accessors disagree with the header octets"
+			}
+			h.SetMessageType(b[3] ^ 0x55)
+			h.SetExtendedProtocolDiscriminator(b[0] ^ 0xaa)
+			if h.Octet != [4]uint8{b[0] ^ 0xaa, b[1], b[2], b[3] ^ 0x55} || m.GsmMessage.GsmHeader.Octet != [4]uint8{b[0], b[1], b[2], b[3]} {
+				return "FAIL GsmHeader setters write other octets than discriminator / message type (or reach through a copy)"
+			}
+		}
 		return "pass"
 	}
 	return skip
@@ -556,6 +594,13 @@ func oracleC10(op string, args []string) string {
 			return skip
 		}
 		before := showBody(name, body.Elem())
+		whole := func() string { // header view and every body pointer of the Message, not only the body that is encoded
+			if fam == "msg" || m == nil {
+				return ""
+			}
+			return showNas(m)
+		}
+		beforeAll := whole()
 		pre := []byte{0xde, 0xad, 0xbe, 0xef, 0x01}
 		var out1, out2 []byte
 		var e1, e2 error
@@ -607,6 +652,9 @@ func oracleC10(op string, args []string) string {
 		}
 		if after := showBody(name, body.Elem()); after != before {
 			return "FAIL encoding modified the message"
+		}
+		if afterAll := whole(); afterAll != beforeAll {
+			return "FAIL encoding modified the message (header view): " + afterAll
 		}
 		if e1 == nil {
 			// mutate the output: the message must not change
